@@ -12,7 +12,7 @@ evaluated on what the implementation did:
     complete the end-of-data line,
   * the same for every segmentation / pre-loaded recv_buffer.
 """
-import itertools
+import itertools, re, hashlib
 from vp.core import B
 from vp.fakes import ScriptSocket, segmentations
 
@@ -395,6 +395,223 @@ def run_random(ctx, count):
     ctx.sample(dict(kind='random', message=m[:80], parts=[p[:40] for p in parts]), cap=8)
 
 
+# ------------------------------------------------------------ size-boundary stream
+# The property quantifies over every message and every segmentation, so sizes are in the quantifier:
+# code that works in windows / closes long lines / restarts scans at some buffer size is only
+# visible to messages that put a dot exactly at such an offset.  Messages are
+#     filler(L - delta) + probe + tail
+# with L a power-of-two-ish size, delta in 0..3, the filler free of dots at line starts, and the probe
+# putting a dot right at / after the boundary.  Cases are DESCRIBED (L, delta, probe, filler, split,
+# segmentation), never stored: a replay rebuilds the 128 KiB message from the description.
+SB_L = [1024, 4096, 8192, 16384, 65536, 131072]
+SB_DELTA = [0, 1, 2, 3]
+SB_PROBES = [b'\n.', b'\n.\r\n', b'\r\n.\r\n', b'\r\n.x', b'.\r\n', b'\n..', b'.x']
+SB_CONTINUING = (4, 6)        # probes whose dot continues the filler's last line
+SB_MODEL_MAX_L = 8192         # the extracted model is evaluated only up to this L (cost), beyond: implementation-only oracle
+STUFF_RE = re.compile(br'(?m)^\.')
+
+
+def sb_filler(kind, n):
+    """n bytes in which no line starts with a dot.  run: one unterminated line; crlf: 72-byte CRLF lines;
+    dot-*: the same behind b'a\n.' (a stuffing point: the sender's scan and the reader's line restart there)"""
+    if kind.startswith('dot-'):
+        return b'a\n.' + sb_filler(kind[4:], n)
+    if kind == 'run':
+        return b'x' * n
+    if kind == 'crlf':
+        return ((b'y' * 70 + b'\r\n') * (n // 72 + 1))[:n]
+    raise ValueError(kind)
+
+
+def sb_message(d):
+    """-> (message, index of the probe's dot in it)"""
+    f = sb_filler(d['filler'], d['L'] - d['delta'])
+    probe = SB_PROBES[d['probe']]
+    tail = b'zz\r\nlast' if d['delta'] == 3 else b'zz\r\nlast line\r\n'
+    return f + probe + tail, len(f) + probe.index(b'.')
+
+
+def sb_parts(m, k, split):
+    """split: None = one part, else offset relative to the probe's dot"""
+    if split is None:
+        return [m]
+    return [m[:k + split], m[k + split:]]
+
+
+def sb_chunks(data, p, seg):
+    """seg = dict(size=, cuts=[offsets relative to p at which a new recv() result starts], preload=)
+    preload: number of leading bytes already in io.recv_buffer, 'dot' = everything in front of the
+    probe's dot, 'all' = everything.  -> (recv_buffer, chunks), no chunk longer than 4096"""
+    n = len(data)
+    pre = seg.get('preload', 0)
+    pre = p if pre == 'dot' else n if pre == 'all' else min(pre, n)
+    bounds = sorted(set([pre, n] + [min(max(p + c, pre), n) for c in seg.get('cuts', [])]))
+    chunks = []
+    size = seg['size']
+    for a, b in zip(bounds, bounds[1:]):
+        for i in range(a, b, size):
+            chunks.append(data[i:min(i + size, b)])
+    return data[:pre], cap(chunks)
+
+
+def sb_summary(out):
+    """small, comparable stand-in for a reader outcome holding 128 KiB"""
+    if out[0] != 0:
+        return tuple(x if not isinstance(x, bytes) else (len(x), x[:40]) for x in out)
+    return (0, len(out[1]), hashlib.blake2b(out[1], digest_size=8).hexdigest(), out[2][:60], out[3])
+
+
+def sb_diff(got, want):
+    """human-size description of got != want (reader outcomes)"""
+    if got[0] != 0:
+        return 'DataReader.recv() raised %s; expected %d bytes of message and %r left unread' % (
+            {1: 'ConnectionLost (no end-of-data line seen)', 2: 'MessageTooBig'}.get(got[0], got[0]), len(want[1]), want[2][:60])
+    what = []
+    if got[1] != want[1]:
+        i = next((j for j in range(min(len(got[1]), len(want[1]))) if got[1][j] != want[1][j]), min(len(got[1]), len(want[1])))
+        what.append('recv() returned %d bytes, expected %d; first difference at offset %d: got %r, expected %r' % (
+            len(got[1]), len(want[1]), i, got[1][max(0, i - 6):i + 12], want[1][max(0, i - 6):i + 12]))
+    if got[2] != want[2]:
+        what.append('unread bytes (io.recv_buffer + socket): %d bytes starting %r, expected %r' % (len(got[2]), got[2][:60], want[2][:60]))
+    if got[3] != want[3]:
+        what.append('%d socket reads, %d were needed' % (got[3], want[3]))
+    return '; '.join(what)
+
+
+def sb_plan(quick):
+    """-> list of (descriptor without split/seg, [splits], [segs]) """
+    plan = []
+    S = lambda size, cuts=(), preload=0: dict(size=size, cuts=list(cuts), preload=preload)
+    for L in SB_L:
+        for delta in SB_DELTA:
+            for pi in range(len(SB_PROBES)):
+                cont = pi in SB_CONTINUING
+                for kind in (['run', 'crlf', 'dot-crlf'] if quick else ['run', 'crlf', 'dot-crlf', 'dot-run']):
+                    d = dict(L=L, delta=delta, probe=pi, filler=kind)
+                    splits = [None] + list(range(-3, 4))
+                    long_line = kind.endswith('run')
+                    if not long_line:
+                        # short lines: the reader is cheap per byte; large pre-loaded buffers allowed
+                        few = [S(4096), S(1000, (0,)), S(4096, (1,), preload='dot')]
+                        full = [S(1000), S(4095), S(4096), S(4097), S(4096, (0, 1, 2)), S(1000, (0,)),
+                                S(4096, preload='dot'), S(4096, (1,), preload='dot'), S(4096, preload=16384), S(4096, preload=65536), S(4096, preload='all')]
+                        if not quick:
+                            segs = full + [S(16384), S(65536)]
+                        else:
+                            segs = full if (kind == 'crlf' and delta == 0) else few
+                        if L <= 1024 or (L <= 4096 and not quick):
+                            segs = segs + [S(1)]
+                    else:
+                        # one long line: `.*\n` in add_lines is quadratic in the length of an LF-free piece
+                        # (13 ms per 4096-byte piece), so the grid is thinned in the quick tier
+                        if quick and cont and delta == 0:
+                            segs = [S(4096), S(1000, (0,)), S(1000, (0, 1))]
+                            if L <= 16384:
+                                segs += [S(4095), S(4097), S(4096, (0, 1, 2)), S(4096, preload='dot')]
+                        elif quick and cont:
+                            segs = [S(1000, (0,))] if L > 16384 else [S(4096), S(1000, (0,)), S(1000, (0, 1))]
+                        elif quick:
+                            # dot after a line end: the long line is over when the dot comes; kept for small L only
+                            if L > 8192 or not ((delta == 1 and pi in (0, 1, 5)) or (delta == 2 and pi in (2, 3))):
+                                continue
+                            segs = [S(4096), S(1000, (0,))]
+                        elif cont and kind == 'run' and delta == 0:
+                            segs = [S(1000), S(4095), S(4096), S(4097), S(4096, (0, 1, 2)), S(1000, (0,)), S(1000, (0, 1)),
+                                    S(4096, preload='dot'), S(4096, preload=4096), S(4096, preload=min(16384, L))]
+                        elif cont and kind == 'run':
+                            segs = [S(4096), S(1000, (0,)), S(1000, (0, 1)), S(4096, preload='dot')]
+                        elif cont:
+                            if delta:
+                                continue
+                            segs = [S(4096), S(4095), S(1000, (0,)), S(4096, (0, 1, 2))]
+                        else:
+                            if kind == 'dot-run':
+                                continue
+                            segs = [S(4096), S(1000, (0,))]
+                        if L <= 1024:
+                            segs.append(S(1))
+                    plan.append((d, splits, segs))
+    return plan
+
+
+def run_size_boundary(ctx):
+    plan = sb_plan(ctx.quick)
+    t = b'QUIT\r\n'
+    n_msgs = n_send = n_recv = n_model = 0
+    model_send, model_recv = [], []          # evaluated in a few driver batches at the end (L <= SB_MODEL_MAX_L only)
+    for d, splits, segs in plan:
+        m, k = sb_message(d)
+        with_model = d['L'] <= SB_MODEL_MAX_L
+        n_msgs += 1
+        ctx.count('size-boundary:L=%d' % d['L'])
+        ctx.count('size-boundary:filler=' + d['filler'])
+        # ---- sender: one part and parts cut within +-3 bytes of the probe's dot
+        wires = {}
+        send_cases = []
+        for sp in splits:
+            parts = sb_parts(m, k, sp)
+            wire = impl_send(parts)
+            n_send += 1
+            ctx.evaluations += 1
+            ok = guard(parts)
+            if not ok:
+                ctx.count('size-boundary-split:dot-part-midline(not judged)')
+                continue
+            ctx.count('size-boundary-split:' + ('one-part' if sp is None else 'near-boundary'))
+            send_cases.append((sp, parts, wire))
+            wires.setdefault(wire, sp)
+        if with_model:
+            for (sp, parts, wire) in send_cases:
+                model_send.append((dict(d, stream='size-boundary', split=sp), parts, wire))
+        # ---- reader: every distinct wire x segmentations
+        p = len(STUFF_RE.sub(b'..', m[:k]))          # offset of the (first) dot of the probe in a correctly stuffed wire
+        jobs = []
+        for wire, sp in wires.items():
+            data = wire + t
+            for seg in segs:
+                buf, chunks = sb_chunks(data, p, seg)
+                jobs.append((sp, seg, wire, buf, chunks))
+        for (sp, seg, wire, buf, chunks) in jobs:
+            case = dict(d, stream='size-boundary', split=sp, trailing=t, seg=seg)
+            got = impl_recv(buf, list(chunks))
+            n_recv += 1
+            ctx.evaluated(('size-boundary', repr(sorted(case.items(), key=lambda kv: kv[0]))), nontrivial=True)
+            ctx.count('size-boundary-seg:%s%s%s' % (seg['size'], '+cuts-at-dot' if seg['cuts'] else '', '+preloaded' if seg['preload'] else ''))
+            if with_model and not (seg['size'] == 1 and d['L'] > 1024):
+                model_recv.append((case, buf, chunks, got))
+            want = (0, expected(m), t, need_calls(buf, chunks, len(wire)))
+            if got != want:
+                base = ('reader-raises' if got[0] != 0 else
+                        'early-end-of-data' if (len(got[1]) < len(want[1]) and want[1].startswith(got[1])) else
+                        'content-altered' if got[1] != want[1] else
+                        'trailing-bytes-altered' if got[2] != want[2] else 'reads-past-end-of-data')
+                ctx.fail('c05:size-boundary-' + base, case,
+                         'message = filler(%s, %d bytes) + %r + tail (%d bytes in all), sent as %s, wire followed by %r and read with %r: %s' % (
+                             d['filler'], d['L'] - d['delta'], SB_PROBES[d['probe']], len(m),
+                             'one part' if sp is None else 'two parts cut %+d bytes from the dot' % sp, t, seg, sb_diff(got, want)))
+    for i in range(0, len(model_send), 2000):
+        part = model_send[i:i + 2000]
+        for (case, parts, wire), mw in zip(part, ctx.model.batch('c05_send', [x[1] for x in part])):
+            n_model += 1
+            if wire != B(mw):
+                ctx.mismatch('send-size-boundary', case, (len(wire), wire[-40:]), (len(B(mw)), B(mw)[-40:]))
+    for i in range(0, len(model_recv), 1000):
+        part = model_recv[i:i + 1000]
+        for (case, buf, chunks, got), o in zip(part, ctx.model.batch('c05_recv', [[None, x[1], x[2]] for x in part])):
+            n_model += 1
+            mo = model_recv_out(o, chunks)
+            if got != mo:
+                ctx.mismatch('recv-size-boundary', case, sb_summary(got), sb_summary(mo))
+    ctx.sample(dict(kind='size-boundary', L=SB_L, delta=SB_DELTA, probes=SB_PROBES, messages=n_msgs, sender_runs=n_send, reader_runs=n_recv,
+                    model_evaluations=n_model, model_up_to_L=SB_MODEL_MAX_L), cap=12)
+    ctx.note('size-boundary stream: %d messages filler(L-delta)+probe+tail, L in %r, delta in %r, %d probes, fillers run (one long line) / crlf (72-byte lines) / '
+             'behind a stuffing point; sender as one part and cut at every offset within +-3 of the probe dot; reader with recv() sizes 1 (small L), 1000, 4095, 4096, '
+             '4097 (larger sizes coincide with 4096: IO.raw_recv asks for 4096 bytes), cuts exactly before/after/between the probe dots, buffers of up to the whole '
+             'stream pre-loaded in io.recv_buffer; %d sender runs, %d reader runs.  The extracted model is evaluated (and compared) only for L <= %d (%d evaluations); '
+             'beyond that the cases are judged by the implementation-only round-trip oracle (the theorems hold for all sizes, the correspondence samples the size dimension)'
+             % (n_msgs, SB_L, SB_DELTA, len(SB_PROBES), n_send, n_recv, SB_MODEL_MAX_L, n_model))
+
+
 def run_maxsize(ctx, count):
     """model<->code only (never judged): the MessageTooBig path of recv_piece"""
     rng = ctx.rng
@@ -425,21 +642,53 @@ def run(ctx):
         'independent reference reader; random: structured and binary messages to 4 kB with 8-bit bytes, 1-4 parts, random trailing bytes, '
         'whole/random/linewise/bytewise/pre-loaded segmentations. distinct_nontrivial counts distinct (message, parts, trailing, segmentation) '
         'cases whose message is empty, has no final CRLF, contains a bare CR or LF, needed dot stuffing, or is followed by trailing bytes '
-        '(raw streams: those containing a complete line).')
+        '(raw streams: those containing a complete line). size-boundary: messages filler(L-delta)+probe+tail around L in 1 KiB..128 KiB, '
+        'see notes.')
     ctx.extra['trusted_base'] = ['reference reader / expected() / guard() in harness/props/c05.py (oracle side, independent of the model)']
     if ctx.quick:
         run_exhaustive(ctx, maxlen=6, cut_all_upto=5, three_upto=3)
         run_raw(ctx, 5)
         run_random(ctx, 300)
+        run_size_boundary(ctx)
         pass  # the size limit (MessageTooBig) is modelled and judged by C09 (reader after the D13 repair)
     else:
         run_exhaustive(ctx, maxlen=8, cut_all_upto=6, three_upto=5)
         run_raw(ctx, 6)
         run_random(ctx, 6000)
+        run_size_boundary(ctx)
         pass  # see C09
     ctx.note('max_size is None in every judged case; the MessageTooBig path is compared model<->code only (property C09 judges it)')
     ctx.note('a sender part that starts with "." in the middle of a line gets that dot doubled by DataSender._process_part '
              '(e.g. parts (b"a", b".b") arrive as b"a..b\\r\\n"); such splits are outside the property (splits at line boundaries) and are only compared model<->code')
+
+
+def replay_size_boundary(ctx, c, unhex):
+    """rebuilds the message, the parts and the segmentation from the description"""
+    d = dict(L=c['L'], delta=c['delta'], probe=c['probe'], filler=c['filler'])
+    m, k = sb_message(d)
+    t = unhex(c.get('trailing', b'')) or b''
+    parts = sb_parts(m, k, c.get('split'))
+    wire = impl_send(parts)
+    p = len(STUFF_RE.sub(b'..', m[:k]))
+    buf, chunks = sb_chunks(wire + t, p, c['seg'])
+    print('message             : filler(%s, %d bytes) + %r + %r  (%d bytes; the probe dot is message byte %d)' % (
+        d['filler'], d['L'] - d['delta'], SB_PROBES[d['probe']], m[k + len(SB_PROBES[d['probe']]) - SB_PROBES[d['probe']].index(b'.'):], len(m), k))
+    print('sender parts        : %s' % ('one part' if c.get('split') is None else 'lengths %r' % [len(x) for x in parts]))
+    ref = STUFF_RE.sub(b'..', m) + (b'.\r\n' if (m == b'' or m.endswith(b'\r\n')) else b'\r\n.\r\n')
+    print('DataSender wrote    : %d bytes, %s; around the probe: %r' % (
+        len(wire), 'as the reference stuffing' if wire == ref else 'DIFFERENT from the reference stuffing (%d bytes)' % len(ref), wire[max(0, p - 6):p + 10]))
+    print('trailing bytes      : %r' % t)
+    print('segmentation        : %r -> recv_buffer %d bytes, %d socket pieces of lengths %r%s' % (
+        c['seg'], len(buf), len(chunks), [len(x) for x in chunks[:12]], ' ...' if len(chunks) > 12 else ''))
+    want = (0, expected(m), t, need_calls(buf, chunks, len(wire)))
+    got = impl_recv(buf, list(chunks))
+    print('expected            : recv() == the message%s (%d bytes), unread == %r, socket reads == %d' % (
+        '' if expected(m) == m else ' + CRLF', len(want[1]), t, want[3]))
+    print('implementation      : %s' % ('as expected' if got == want else sb_diff(got, want)))
+    if ctx.model and d['L'] <= SB_MODEL_MAX_L:
+        mo = model_recv_out(ctx.model.call('c05_recv', [None, buf, chunks]), chunks)
+        print('model               : %s' % ('as expected' if mo == want else sb_diff(mo, want)))
+    return 0
 
 
 def replay(ctx, case):
@@ -447,6 +696,8 @@ def replay(ctx, case):
 
     def unhex(x):
         return bytes.fromhex(x['hex']) if isinstance(x, dict) else x
+    if c.get('stream') == 'size-boundary':
+        return replay_size_boundary(ctx, c, unhex)
     buf = unhex(c.get('recv_buffer', b'')) or b''
     chunks = [unhex(x) for x in c.get('chunks', [])]
     if 'parts' in c:
